@@ -13,6 +13,7 @@ KEYS = {
     "name": "str", "path": "str", "ext": "str",
     "size": "num", "uid": "num", "gid": "num", "hardlinks": "num", "inode": "num", "blocks": "num", "line_count": "num", "length(name)": "num", "size + 1": "num",
     "modified": "date",
+    "day(modified)": "num", "month(modified)": "num", "year(modified)": "num",
 }
 
 
